@@ -28,6 +28,9 @@ use krill::server::ca::publishing::CaObjects;
 use serde_json::{json, Value};
 
 fn parent_of(ca: &str) -> &'static str { if ca == "a" { "ta" } else { "a" } }
+/// CAs ("n" is created by some operations) and publishers ("px" has objects from the set-up, "py" is created by an operation).
+const CA_ALL: [&str; 5] = ["ta", "a", "b", "c", "n"];
+const PUB_ALL: [&str; 7] = ["ta", "a", "b", "c", "n", "px", "py"];
 const SELF_DIR: &str = "/proc/self/cwd";
 
 // ------------------------------------------------------------------------------------------------
@@ -41,6 +44,8 @@ enum Mode { Record, Crash, Fail }
 
 /// Pseudo cut index: the fault hits the removal of the old rsync directory, wherever it is in the trace.
 const FAIL_REMOVE_OLD: u64 = u64::MAX - 1;
+/// Pseudo cut index: the fault hits the rename of rsync/current (the temporary directory of that serial is left behind).
+const FAIL_RENAME_CURRENT: u64 = u64::MAX - 2;
 
 struct CutProbe {
     on: AtomicBool,
@@ -104,7 +109,8 @@ impl Probe for CutProbe {
         if !MUTATIONS.contains(&ev.kind) { return true }
         let n = self.count.fetch_add(1, Ordering::SeqCst);
         let (store, class) = shape_of(&self.root, ev);
-        let hit = (n == self.cut || (self.cut == FAIL_REMOVE_OLD && ev.kind == "fs-remove-dir" && ev.ns.ends_with("/rsync/old"))) && self.mode != Mode::Record;
+        let hit = (n == self.cut || (self.cut == FAIL_REMOVE_OLD && ev.kind == "fs-remove-dir" && ev.ns.ends_with("/rsync/old"))
+            || (self.cut == FAIL_RENAME_CURRENT && ev.kind == "fs-rename" && ev.ns.ends_with("/rsync/current"))) && self.mode != Mode::Record;
         {
             let mut f = self.log.lock().unwrap();
             let _ = writeln!(f, "{}", json!({"n": n, "store": store, "class": class, "kind": ev.kind, "ns": ev.ns, "scope": ev.scope, "key": ev.key, "extra": ev.extra, "cut": hit}));
@@ -166,9 +172,52 @@ fn setup(seed: u64) {
     let other = if p.target == "b" { "c" } else { "b" };
     let o_atom = if other == "b" { 1 } else { 5 };
     sys.routes_update(other, &[&format!("10.{o_atom}.0.0/16 => 64520")], &[]).expect("roa other");
+    // a publisher that is no CA of this instance, with two published objects
+    create_publisher(&sys, "px").expect("publisher px");
+    publish_as(&sys, "px", &[("obj1.txt", "px object 1"), ("obj2.txt", "px object 2")]).expect("publish px");
     sys.startup_tasks().expect("startup");
     let done = sys.pump(400, 4000);
     eprintln!("setup: pumped {} tasks", done.len());
+}
+
+fn create_publisher_for_ca(sys: &Sys, name: &str) -> Result<(), String> {
+    let ca = sys.ca(name).map_err(|e| e.to_string())?;
+    let req = rpki::ca::idexchange::PublisherRequest::new(ca.id_cert().base64.clone(), publisher_handle(name), None);
+    sys.krill.repo_manager().create_publisher(req, &sys.actor).map_err(|e| e.to_string())
+}
+
+fn update_repo_of(sys: &Sys, name: &str) -> Result<(), String> {
+    let resp = sys.krill.repo_manager().repository_response(&publisher_handle(name), &sys.krill).map_err(|e| e.to_string())?;
+    let contact = krill::api::admin::RepositoryContact::try_from_response(resp).map_err(|e| e.to_string())?;
+    sys.krill.ca_manager().update_repo(ca_handle(name), contact, false, &sys.actor, &sys.slow).map_err(|e| e.to_string())
+}
+
+fn create_publisher(sys: &Sys, name: &str) -> Result<(), String> {
+    // any identity certificate will do: requests are handed to the server in-process (no CMS)
+    let id = sys.ca("a").map_err(|e| e.to_string())?.id_cert().base64.clone();
+    let req = rpki::ca::idexchange::PublisherRequest::new(id, publisher_handle(name), None);
+    sys.krill.repo_manager().create_publisher(req, &sys.actor).map_err(|e| e.to_string())
+}
+
+fn publish_as(sys: &Sys, name: &str, objs: &[(&str, &str)]) -> Result<(), String> {
+    use rpki::ca::publication::{Base64, Message, Publish, PublishDelta, Query, Reply};
+    use std::str::FromStr;
+    let mut d = PublishDelta::empty();
+    for (file, content) in objs {
+        let uri = rpki::uri::Rsync::from_str(&format!("rsync://localhost/repo/{name}/{file}")).unwrap();
+        d.add_publish(Publish::new(None, uri, Base64::from_content(content.as_bytes())));
+    }
+    match sys.krill.repo_manager().rfc8181_message(&publisher_handle(name), Query::Delta(d), &sys.krill) {
+        Ok(Message::Reply(Reply::Success)) => Ok(()),
+        Ok(m) => Err(format!("unexpected reply {m:?}")),
+        Err(e) => Err(e.to_string()),
+    }
+}
+
+/// A command with events but without task or object changes: the comment of an existing ROA configuration.
+fn comment_command(sys: &Sys, ca: &str, roa: &str, tag: &str) -> Result<(), String> {
+    let cfg = format!("{roa} # {tag} {}", std::process::id());
+    sys.routes_update(ca, &[&cfg], &[]).map_err(|e| e.to_string())
 }
 
 /// Brings a copy of the base directory into a named state (no pump unless stated).
@@ -197,6 +246,23 @@ fn prep(state: &str, seed: u64) {
             set_probe(None);
             if r.is_ok() { eprintln!("prep oldleft: the failing removal did not fail the write"); }
             let _ = std::fs::remove_file("trace.log");
+        }
+        "tmpleft" => {
+            // an RRDP/rsync write that fails at the first rename: rsync/tmp-<serial> is left behind
+            sys.routes_update(t, &[&p.roa], &[]).expect("roa");
+            let r = sys.run_one_task(); assert!(r.map(|x| x.1.contains("synchronize repo")).unwrap_or(false), "the sync-repo task was expected");
+            let probe = install_probe(Mode::Fail, FAIL_RENAME_CURRENT);
+            probe.on.store(true, Ordering::SeqCst);
+            let r = sys.krill.repo_manager().update_rrdp_if_needed();
+            probe.on.store(false, Ordering::SeqCst);
+            set_probe(None);
+            if r.is_ok() { eprintln!("prep tmpleft: the failing rename did not fail the write"); }
+            let _ = std::fs::remove_file("trace.log");
+        }
+        "pxstaged" => { publish_as(&sys, "px", &[("obj3.txt", "px object 3, staged")]).expect("publish px"); }
+        "newca" => {
+            sys.krill.ca_manager().init_ca(ca_handle("n"), &sys.krill).expect("init n");
+            create_publisher_for_ca(&sys, "n").expect("publisher n");
         }
         "ahead" => {
             // a ROA update whose command store fails: the SyncRepo task for the next version stays queued (F08a)
@@ -232,6 +298,14 @@ fn run_op(sys: &Sys, op: &str, p: &Params) -> Result<(), String> {
         "republish" => e(sys.republish(true).map(|_| ())),
         "rrdp_update" => e(sys.krill.repo_manager().update_rrdp_if_needed().map(|_| ())),
         "rsync_write" => e(sys.krill.repo_manager().write_repository()),
+        "remove_publisher" => e(sys.krill.repo_manager().remove_publisher(publisher_handle("px"), &sys.actor, &sys.krill)),
+        "create_publisher" => create_publisher(sys, "py"),
+        "delete_ca" => e(sys.delete_ca(t)),
+        "delete_ca_parent" => e(sys.delete_ca("a")),
+        "init_ca" => e(sys.krill.ca_manager().init_ca(ca_handle("n"), &sys.krill)),
+        "update_repo" => update_repo_of(sys, "n"),
+        "parent_remove" => e(sys.parent_remove(t, "a")),
+        "child_remove" => e(sys.child_remove("a", t)),
         "task" => {
             // one scheduler step; a fatal error of the task or of finishing it ends the daemon (process::exit)
             match std::panic::catch_unwind(std::panic::AssertUnwindSafe(|| sys.run_one_task())) {
@@ -263,7 +337,7 @@ fn canon_name(s: &str) -> String {
         } else { out.push(b[i] as char); i += 1; }
     }
     // own resource class names ("0", "1", ...) are fresh after a class was dropped and re-created
-    for ca in ["a", "b", "c"] {
+    for ca in ["a", "b", "c", "n"] {
         for pre in ["repo/", ""] {
             let pat = format!("{pre}{ca}/");
             if let Some(pos) = out.find(&pat) {
@@ -294,7 +368,7 @@ fn facts(sys: &Sys) -> Value {
     let mut versions = BTreeMap::new();
     let mut objs = BTreeMap::new();
     let store = sys.krill.storage().open(CASERVER_NS).unwrap();
-    for h in ["ta", "a", "b", "c"] {
+    for h in CA_ALL {
         let scope = Ident::boxed_from_string(h.to_string()).unwrap();
         let n = store.keys(Some(&scope), "command-").map(|k| k.len()).unwrap_or(0);
         versions.insert(h.to_string(), n as u64);
@@ -305,7 +379,9 @@ fn facts(sys: &Sys) -> Value {
         .and_then(|b| rpki::rrdp::NotificationFile::parse(b.as_slice()).ok()).map(|n| n.serial()).unwrap_or(0);
     let content_serial = sys.krill.repo_manager().repo_stats().ok().map(|s| serde_json::to_value(&s).unwrap()["serial"].as_u64().unwrap_or(0)).unwrap_or(0);
     json!({"versions": versions, "objects": objs, "tasks": task_names(sys),
-           "has_current": repo.join("rsync/current").exists(), "has_old": repo.join("rsync/old").exists(), "rsync_files": count_files(&repo.join("rsync/current")),
+           "has_current": repo.join("rsync/current").exists(), "has_old": repo.join("rsync/old").exists(),
+           "tmp_dirs": std::fs::read_dir(repo.join("rsync")).map(|rd| rd.flatten().map(|e| e.file_name().to_string_lossy().to_string()).filter(|n| n.starts_with("tmp-")).collect::<Vec<_>>()).unwrap_or_default(),
+           "rsync_files": count_files(&repo.join("rsync/current")),
            "notification_serial": notif_serial, "content_serial": content_serial})
 }
 
@@ -318,11 +394,12 @@ fn count_files(dir: &Path) -> usize {
 fn new_commands(sys: &Sys, pre: &Value) -> Value {
     let mut out = BTreeMap::new();
     let store = sys.krill.storage().open(CASERVER_NS).unwrap();
-    for h in ["a", "b", "c"] {
+    for h in ["a", "b", "c", "n"] {
         let scope = Ident::boxed_from_string(h.to_string()).unwrap();
         let now = store.keys(Some(&scope), "command-").map(|k| k.len()).unwrap_or(0) as u64;
         let mut cmds = Vec::new();
         for v in pre["versions"][h].as_u64().unwrap_or(now)..now {
+            if v == 0 { cmds.push(json!("init")); continue }
             let c = kv_json(sys, CASERVER_NS, Some(h), &format!("command-{v}.json")).ok().flatten().unwrap_or(Value::Null);
             match c["effect"]["events"].as_array() {
                 Some(evs) if !evs.is_empty() => cmds.push(json!(evs.iter().map(|e| {
@@ -410,13 +487,17 @@ fn check_signed_sets(objs: &Value) -> Vec<String> {
 /// content and the publishers, the task queue. Returns what does not.
 fn check_loads(sys: &Sys) -> Vec<String> {
     let mut bad = Vec::new();
-    for h in ["ta", "a", "b", "c"] {
-        match std::panic::catch_unwind(std::panic::AssertUnwindSafe(|| sys.ca(h))) {
+    for h in CA_ALL {
+        // an entity that is absent altogether (never created, or deleted: one delete-scope mutation) is fine
+        let present = h != "ta" && kv_json(sys, CASERVER_NS, Some(h), "command-0.json").map(|o| o.is_some()).unwrap_or(true);
+        if present { match std::panic::catch_unwind(std::panic::AssertUnwindSafe(|| sys.ca(h))) {
             Err(_) => bad.push(format!("get_ca {h}: panic")),
-            Ok(Err(e)) => { if h != "ta" { bad.push(format!("get_ca {h}: {e}")) } }
+            Ok(Err(e)) => { bad.push(format!("get_ca {h}: {e}")) }
             Ok(Ok(ca)) => {
                 use krill::commons::eventsourcing::Aggregate;
                 let v = ca.version();
+                let n_keys = { let st = sys.krill.storage().open(CASERVER_NS).unwrap(); let sc = Ident::boxed_from_string(h.to_string()).unwrap(); st.keys(Some(&sc), "command-").map(|k| k.len()).unwrap_or(0) as u64 };
+                if n_keys != v { bad.push(format!("version-gap: {h} has {n_keys} stored commands but loads at version {v}")); }
                 for i in 0..v {
                     match kv_json(sys, CASERVER_NS, Some(h), &format!("command-{i}.json")) {
                         Ok(Some(_)) => {}
@@ -426,7 +507,7 @@ fn check_loads(sys: &Sys) -> Vec<String> {
                 }
                 if let Ok(Some(_)) = kv_json(sys, CASERVER_NS, Some(h), &format!("command-{v}.json")) { bad.push(format!("{h}: command-{v} exists at the loaded version")); }
             }
-        }
+        } }
         let store = sys.krill.storage().open(CA_OBJECTS_NS).unwrap();
         let key = Ident::boxed_from_string(format!("{h}.json")).unwrap();
         match store.get::<CaObjects>(None, &key) {
@@ -439,7 +520,7 @@ fn check_loads(sys: &Sys) -> Vec<String> {
         Ok(Err(e)) => bad.push(format!("repo_stats: {e}")),
         Ok(Ok(_)) => {}
     }
-    match sys.krill.repo_manager().publishers() { Err(e) => bad.push(format!("publishers: {e}")), Ok(p) => if p.len() < 4 { bad.push(format!("publishers: only {}", p.len())) } }
+    if let Err(e) = sys.krill.repo_manager().publishers() { bad.push(format!("publishers: {e}")) }
     let store = sys.krill.storage().open(TASK_QUEUE_NS).unwrap();
     for sc in ["pending", "running"] {
         let scope = Ident::boxed_from_string(sc.to_string()).unwrap();
@@ -503,39 +584,67 @@ fn repo_files(sys: &Sys) -> (Value, Vec<String>) {
 }
 
 /// The canonical observation that is compared with the crash-free twin.
+/// The canonical view of one CA (serde view of CertAuth, abstracted).
+fn ca_view(j: &Value) -> Value {
+    let mut routes: Vec<String> = j["routes"]["map"].as_object().map(|m| m.keys().cloned().collect()).unwrap_or_default(); routes.sort();
+    let mut aspas: Vec<String> = j["aspas"]["attestations"].as_object().map(|m| m.iter().map(|(k, v)| format!("{k}:{}", v["providers"])).collect()).unwrap_or_default(); aspas.sort();
+    let mut children = BTreeMap::new();
+    if let Some(Value::Object(ch)) = j.get("children") { for (c, v) in ch { children.insert(c.clone(), json!({"res": resources_json_to_mask(&v["resources"]), "state": v["state"], "keys_in_use": v["used_keys"].as_object().map(|u| u.values().filter(|s| s.get("in_use").is_some()).count())})); } }
+    let mut parents: Vec<String> = j["parents"].as_object().map(|m| m.keys().cloned().collect()).unwrap_or_default(); parents.sort();
+    let mut classes = Vec::new();
+    if let Some(Value::Object(rcs)) = j.get("resources") {
+        for (_own, rc) in rcs {
+            let tag = keystate_tag(rc);
+            let cur = match tag.as_str() { "active" => &rc["key_state"]["active"], "roll_pending" => &rc["key_state"]["roll_pending"][1], "roll_new" => &rc["key_state"]["roll_new"][1], "roll_old" => &rc["key_state"]["roll_old"][0], _ => &Value::Null };
+            let res = if cur.is_null() { 0 } else { resources_json_to_mask(&cur["incoming_cert"]["resources"]) };
+            let mut roas: Vec<String> = Vec::new();
+            for sect in ["simple", "aggregate"] { if let Some(Value::Object(o)) = rc["roas"].get(sect) { roas.extend(o.keys().cloned()); } }
+            roas.sort();
+            let mut aspas: Vec<String> = rc["aspas"].as_object().map(|o| o.keys().cloned().collect()).unwrap_or_default(); aspas.sort();
+            let issued = rc["certificates"]["issued"].as_object().map(|o| { let mut v: Vec<u64> = o.values().map(|c| resources_json_to_mask(&c["resources"])).collect(); v.sort(); v }).unwrap_or_default();
+            classes.push(json!({"parent": rc["parent_handle"], "prcn": rc["parent_rc_name"], "keys": tag, "res": res, "roas": roas, "aspas": aspas, "issued": issued,
+                "request_open": rc["key_state"].to_string().contains("\"request\":{")}));
+        }
+    }
+    classes.sort_by_key(|c| c.to_string());
+    json!({"routes": routes, "aspas": aspas, "children": children, "parents": parents, "classes": classes})
+}
+
+/// Failed-write mode: what readers of the running instance see must be the replay of the audit log. A fresh
+/// AggregateStore on the same storage (empty cache) replays it; version and canonical view must agree.
+fn live_vs_log(sys: &Sys) -> Vec<String> {
+    use krill::commons::eventsourcing::{Aggregate, AggregateStore};
+    let mut bad = Vec::new();
+    let fresh = match AggregateStore::<krill::server::ca::CertAuth>::create(sys.krill.storage(), CASERVER_NS, false) { Ok(f) => f, Err(e) => return vec![format!("fresh store: {e}")] };
+    for h in ["a", "b", "c", "n"] {
+        let present = kv_json(sys, CASERVER_NS, Some(h), "command-0.json").map(|o| o.is_some()).unwrap_or(false);
+        if !present { continue }
+        match (sys.ca(h), fresh.get_latest(&ca_handle(h))) {
+            (Ok(live), Ok(log)) => {
+                if live.version() != log.version() { bad.push(format!("{h}: readers see version {}, the audit log replays to version {}", live.version(), log.version())); }
+                else if ca_view(&serde_json::to_value(&*live).unwrap()) != ca_view(&serde_json::to_value(&*log).unwrap()) { bad.push(format!("{h}: readers see a state that is not the replay of the audit log (same version {})", live.version())); }
+            }
+            (Err(e), Ok(_)) => bad.push(format!("{h}: live load fails ({e}) but the log replays")),
+            (Ok(_), Err(e)) => bad.push(format!("{h}: readers see a CA but the log does not replay: {e}")),
+            (Err(_), Err(_)) => {}
+        }
+    }
+    bad
+}
+
 fn observe(sys: &Sys) -> Value {
     let mut cas = BTreeMap::new();
     let mut objects = BTreeMap::new();
     let mut repo = BTreeMap::new();
     let mut signed_bad = Vec::new();
     let mut versions = BTreeMap::new();
-    for h in ["ta", "a", "b", "c"] {
-        if h != "ta" {
+    for h in PUB_ALL {
+        let present = kv_json(sys, CASERVER_NS, Some(h), "command-0.json").map(|o| o.is_some()).unwrap_or(false);
+        if present && h != "ta" {
             if let Ok(ca) = sys.ca(h) {
                 let j = serde_json::to_value(&*ca).unwrap();
                 versions.insert(h.to_string(), j["version"].as_u64().unwrap_or(0));
-                let mut routes: Vec<String> = j["routes"]["map"].as_object().map(|m| m.keys().cloned().collect()).unwrap_or_default(); routes.sort();
-                let mut aspas: Vec<String> = j["aspas"]["attestations"].as_object().map(|m| m.iter().map(|(k, v)| format!("{k}:{}", v["providers"])).collect()).unwrap_or_default(); aspas.sort();
-                let mut children = BTreeMap::new();
-                if let Some(Value::Object(ch)) = j.get("children") { for (c, v) in ch { children.insert(c.clone(), json!({"res": resources_json_to_mask(&v["resources"]), "state": v["state"], "keys_in_use": v["used_keys"].as_object().map(|u| u.values().filter(|s| s.get("in_use").is_some()).count())})); } }
-                let mut parents: Vec<String> = j["parents"].as_object().map(|m| m.keys().cloned().collect()).unwrap_or_default(); parents.sort();
-                let mut classes = Vec::new();
-                if let Some(Value::Object(rcs)) = j.get("resources") {
-                    for (_own, rc) in rcs {
-                        let tag = keystate_tag(rc);
-                        let cur = match tag.as_str() { "active" => &rc["key_state"]["active"], "roll_pending" => &rc["key_state"]["roll_pending"][1], "roll_new" => &rc["key_state"]["roll_new"][1], "roll_old" => &rc["key_state"]["roll_old"][0], _ => &Value::Null };
-                        let res = if cur.is_null() { 0 } else { resources_json_to_mask(&cur["incoming_cert"]["resources"]) };
-                        let mut roas: Vec<String> = Vec::new();
-                        for sect in ["simple", "aggregate"] { if let Some(Value::Object(o)) = rc["roas"].get(sect) { roas.extend(o.keys().cloned()); } }
-                        roas.sort();
-                        let mut aspas: Vec<String> = rc["aspas"].as_object().map(|o| o.keys().cloned().collect()).unwrap_or_default(); aspas.sort();
-                        let issued = rc["certificates"]["issued"].as_object().map(|o| { let mut v: Vec<u64> = o.values().map(|c| resources_json_to_mask(&c["resources"])).collect(); v.sort(); v }).unwrap_or_default();
-                        classes.push(json!({"parent": rc["parent_handle"], "prcn": rc["parent_rc_name"], "keys": tag, "res": res, "roas": roas, "aspas": aspas, "issued": issued,
-                            "request_open": rc["key_state"].to_string().contains("\"request\":{")}));
-                    }
-                }
-                classes.sort_by_key(|c| c.to_string());
-                cas.insert(h.to_string(), json!({"routes": routes, "aspas": aspas, "children": children, "parents": parents, "classes": classes}));
+                cas.insert(h.to_string(), ca_view(&j));
             } else { cas.insert(h.to_string(), json!("unloadable")); }
         }
         // published-object store: per class (by state and canonical names)
@@ -561,9 +670,16 @@ fn observe(sys: &Sys) -> Value {
         // what the publication server holds for the publisher
         match sys.krill.repo_manager().list(&publisher_handle(h)) {
             Ok(l) => { let mut v: Vec<String> = l.elements().iter().map(|e| canon_name(e.uri().as_str())).collect(); v.sort(); repo.insert(h.to_string(), json!(v)); }
-            Err(e) => { repo.insert(h.to_string(), json!(format!("error: {e}"))); }
+            Err(_) => { repo.insert(h.to_string(), json!("no such publisher in the content store")); }
         }
     }
+    // the two stores of the publication server, the CA list, and what is left in the companion stores
+    let mut access: Vec<String> = sys.krill.repo_manager().publishers().map(|v| v.iter().map(|p| p.to_string()).collect()).unwrap_or_default(); access.sort();
+    let content: Vec<String> = sys.krill.repo_manager().repo_stats().ok().map(|st| serde_json::to_value(&st).unwrap()).and_then(|v| v["publishers"].as_object().map(|m| m.keys().cloned().collect())).unwrap_or_default();
+    let mut ca_list: Vec<String> = sys.krill.ca_manager().ca_handles().map(|v| v.iter().map(|h| h.to_string()).collect()).unwrap_or_default(); ca_list.sort();
+    let mut obj_keys: Vec<String> = sys.krill.storage().open(CA_OBJECTS_NS).ok().and_then(|st| st.keys(None, "").ok()).map(|v| v.iter().map(|k| k.as_str().to_string()).collect()).unwrap_or_default(); obj_keys.sort();
+    let mut status_scopes: Vec<String> = sys.krill.storage().open(krill::constants::STATUS_NS).ok().and_then(|st| st.scopes().ok()).map(|v| v.iter().map(|k| k.as_str().to_string()).collect()).unwrap_or_default(); status_scopes.sort();
+    let stores = json!({"access_publishers": access, "content_publishers": content, "cas": ca_list, "ca_objects_keys": obj_keys, "status_scopes": status_scopes});
     let (files, files_bad) = repo_files(sys);
     // ROAs the publication server holds for a CA whose route is not in that CA's configuration (API view):
     // what a relying party would turn into VRPs although no logged command ever asked for them
@@ -579,12 +695,12 @@ fn observe(sys: &Sys) -> Value {
             }
         }
     }
-    json!({"cas": cas, "objects": objects, "repo": repo, "files": files, "files_bad": files_bad, "signed_bad": signed_bad, "versions": versions, "tasks": task_names(sys), "orphan_roas": orphans})
+    json!({"cas": cas, "objects": objects, "repo": repo, "files": files, "files_bad": files_bad, "signed_bad": signed_bad, "versions": versions, "tasks": task_names(sys), "orphan_roas": orphans, "stores": stores})
 }
 
 /// The part of an observation that must equal the twin's.
 fn comparable(o: &Value) -> Value {
-    json!({"cas": o["cas"], "objects": o["objects"], "repo": o["repo"],
+    json!({"cas": o["cas"], "objects": o["objects"], "repo": o["repo"], "stores": o["stores"],
            "rsync": o["files"]["rsync"], "rrdp_in_step": o["files"]["notification_serial"] == o["files"]["content_serial"]})
 }
 
@@ -614,41 +730,71 @@ fn settle(sys: &Sys) -> Vec<String> {
         }
     }
     if let Err(e) = sys.republish(true) { errs.push(format!("republish: {e}")); }
-    for ca in ["ta", "a", "b", "c"] { if let Err(e) = sys.sync_repo(ca) { errs.push(format!("sync_repo {ca}: {}", e.to_string().chars().take(160).collect::<String>())); } }
+    for ca in CA_ALL { if let Err(e) = sys.sync_repo(ca) { errs.push(format!("sync_repo {ca}: {}", e.to_string().chars().take(160).collect::<String>())); } }
     if let Err(e) = sys.krill.repo_manager().update_rrdp_if_needed() { errs.push(format!("update_rrdp: {}", e.to_string().chars().take(200).collect::<String>())); }
     errs
 }
 
 fn res_json(r: &Result<(), String>) -> Value { match r { Ok(()) => json!("ok"), Err(e) => json!({"err": e.chars().take(200).collect::<String>()}) } }
 
-/// After the fault: loads, facts right after the cut, start-up (only after a restart), pump, resubmit, pump, observe,
-/// then the periodic work and the final observation.
-fn recover_and_observe(sys: &Sys, op: &str, p: &Params, restarted: bool, first_result: Option<Result<(), String>>) -> Value {
+/// The ROA configuration of a CA whose comment the comment commands change.
+fn comment_roa(ca: &str, p: &Params) -> Option<String> {
+    if ca == "a" { Some("10.7.0.0/16 => 64512".to_string()) } else if ca == p.target { Some(p.roa0.clone()) } else { None }
+}
+
+/// After the fault: loads; (failed-write mode) readers against the replay of the log; facts right after the cut;
+/// start-up (only after a restart), pump, resubmit, pump, observe; the periodic work; a DIFFERENT acknowledged
+/// command on the CAs involved; then a restart: everything loads, no version gap, the restarted instance shows
+/// what the running one showed (nothing acknowledged is lost), and the final observation.
+fn recover_and_observe(sys: Sys, op: &str, p: &Params, restarted: bool, first_result: Option<Result<(), String>>) -> Value {
     let t0 = std::time::Instant::now();
     let tm = |what: &str| { if std::env::var("KV_TIMING").is_ok() { eprintln!("  [{:?}] {what}", t0.elapsed()); } };
-    let loads_bad = check_loads(sys);
-    let at_cut = facts(sys);
+    let live_bad = if restarted { vec![] } else { live_vs_log(&sys) };
+    let loads_bad = check_loads(&sys);
+    let at_cut = facts(&sys);
     tm("loads+facts");
     if restarted { if let Err(e) = sys.startup_tasks() { return json!({"fatal": format!("startup: {e}")}) } }
-    let pumped1 = pump_guarded(sys, 300, 1200);
+    let pumped1 = pump_guarded(&sys, 300, 1200);
     tm("pump1");
-    let obs_pump = observe(sys);
+    let obs_pump = observe(&sys);
     tm("observe");
-    let resubmit = run_op(sys, op, p);
+    let resubmit = run_op(&sys, op, p);
     tm("resubmit");
-    let pumped2 = pump_guarded(sys, 300, 2600);
+    let pumped2 = pump_guarded(&sys, 300, 2600);
     tm("pump2");
-    let obs_prompt = observe(sys);
+    let obs_prompt = observe(&sys);
     tm("observe");
-    let settle_errs = settle(sys);
+    let settle_errs = settle(&sys);
     tm("settle");
-    let pumped3 = pump_guarded(sys, 300, 2600);
+    let pumped3 = pump_guarded(&sys, 300, 2600);
     tm("pump3");
-    let loads_bad2 = check_loads(sys);
+    // a different command, acknowledged, on every CA the comment commands know
+    let mut acked = Vec::new();
+    for ca in ["a", p.target] {
+        let present = kv_json(&sys, CASERVER_NS, Some(ca), "command-0.json").map(|o| o.is_some()).unwrap_or(false);
+        if let (true, Some(roa)) = (present, comment_roa(ca, p)) { if comment_command(&sys, ca, &roa, "probe").is_ok() { acked.push(ca.to_string()); } }
+    }
+    let live_bad2 = live_vs_log(&sys);
+    let loads_bad2 = check_loads(&sys);
     tm("loads");
-    let obs = observe(sys);
+    let obs_live = observe(&sys);
     tm("observe");
-    json!({"loads_bad": loads_bad, "loads_bad_final": loads_bad2, "at_cut": at_cut,
+    // restart
+    drop(sys);
+    let sys = open_sys();
+    let loads_bad3 = check_loads(&sys);
+    let obs = observe(&sys);
+    let mut restart_bad = Vec::new();
+    for (h, v) in obs_live["versions"].as_object().cloned().unwrap_or_default() {
+        let after = obs["versions"][&h].as_u64().unwrap_or(0);
+        if after < v.as_u64().unwrap_or(0) { restart_bad.push(format!("acknowledged-command-lost: {h} was at version {v} before the restart and loads at version {after} after it{}", if acked.contains(&h) { " (the acknowledged comment command is gone)" } else { "" })); }
+        else if after != v.as_u64().unwrap_or(0) { restart_bad.push(format!("{h}: version {v} before the restart, {after} after it")); }
+    }
+    if comparable(&obs_live) != comparable(&obs) { let mut d = Vec::new(); diff_paths(&comparable(&obs_live), &comparable(&obs), String::new(), &mut d); restart_bad.push(format!("the restarted instance differs from the running one: {}", d.iter().take(3).cloned().collect::<Vec<_>>().join("; "))); }
+    tm("restart");
+    let loads_final: Vec<String> = [loads_bad2, loads_bad3].concat();
+    let live_all: Vec<String> = [live_bad, live_bad2].concat();
+    json!({"loads_bad": loads_bad, "loads_bad_final": loads_final, "live_bad": live_all, "restart_bad": restart_bad, "at_cut": at_cut,
            "obs_pump": {"cmp": comparable(&obs_pump), "signed_bad": obs_pump["signed_bad"], "files_bad": obs_pump["files_bad"], "orphan_roas": obs_pump["orphan_roas"]},
            "obs_prompt": comparable(&obs_prompt),
            "first_result": first_result.as_ref().map(res_json), "resubmit": res_json(&resubmit), "settle_errs": settle_errs,
@@ -680,13 +826,19 @@ fn worker(args: &Args) {
             let m = match args.extra.get("mode").map(|s| s.as_str()) { Some("crash") => Mode::Crash, Some("fail") => Mode::Fail, _ => Mode::Record };
             let restart = args.get_u64("restart", 0) == 1;
             let sys = open_sys();
+            // A daemon that has been running: the caches were filled at start-up and a successful command has
+            // gone by since (a successful command does not refresh the cache entry, the next call replays it).
+            // (state `ahead` lives on the target CA being one version behind a queued task: no command there)
+            let nowarm = args.get_u64("nowarm", 0) == 1;
+            for ca in ["a", p.target] { if nowarm && ca == p.target { continue } if let Some(roa) = comment_roa(ca, &p) { let _ = comment_command(&sys, ca, &roa, "warm"); } }
+            let pre = facts(&sys);
+            std::fs::write("pre.json", serde_json::to_string(&pre).unwrap()).unwrap();
             let probe = install_probe(m, cut);
             probe.on.store(true, Ordering::SeqCst);
             let r = run_op(&sys, &op, &p);
             probe.on.store(false, Ordering::SeqCst);
             set_probe(None);
             let n = probe.count.load(Ordering::SeqCst);
-            let pre = read_json(Path::new("pre.json"));
             let newc = new_commands(&sys, &pre);
             if restart {
                 // the twin of the crash runs: end this runtime, a `recover` worker goes on
@@ -696,18 +848,18 @@ fn worker(args: &Args) {
                 // the scheduler ends the daemon on this path (process::exit): go on as after a restart
                 drop(sys);
                 let sys = open_sys();
-                let mut v = recover_and_observe(&sys, &op, &p, true, Some(r));
+                let mut v = recover_and_observe(sys, &op, &p, true, Some(r));
                 v["mutations"] = json!(n); v["restarted_after_fatal"] = json!(true);
                 out(v);
             } else {
-                let mut v = recover_and_observe(&sys, &op, &p, false, Some(r));
+                let mut v = recover_and_observe(sys, &op, &p, false, Some(r));
                 v["mutations"] = json!(n); v["new_commands"] = newc;
                 out(v);
             }
         }
         "recover" => {
             let sys = open_sys();
-            out(recover_and_observe(&sys, &op, &p, true, None));
+            out(recover_and_observe(sys, &op, &p, true, None));
         }
         other => panic!("unknown worker mode {other}"),
     }
@@ -739,7 +891,7 @@ fn read_trace(p: &Path) -> Vec<Value> {
 }
 
 #[derive(Clone)]
-struct CaseOut { state: String, op: String, mode: String, n: usize, trace: Vec<Value>, prefix: Vec<Value>, res: Value, exit: String, target: String }
+struct CaseOut { state: String, op: String, mode: String, n: usize, trace: Vec<Value>, prefix: Vec<Value>, res: Value, exit: String, target: String, pre: Value }
 
 fn run_case(exe: &Path, seed: u64, out: &Path, state: &str, op: &str, mode: &str, n: Option<usize>) -> CaseOut {
     let tag = match n { Some(n) => format!("{state}-{op}-{mode}-{n}"), None => format!("{state}-{op}-{mode}-twin") };
@@ -748,10 +900,12 @@ fn run_case(exe: &Path, seed: u64, out: &Path, state: &str, op: &str, mode: &str
     let mut extra: Vec<(&str, String)> = vec![("worker", "exec".into()), ("op", op.to_string())];
     if let Some(n) = n { extra.push(("cut", n.to_string())); extra.push(("mode", mode.to_string())); }
     if mode == "crash" { extra.push(("restart", "1".into())); }
+    if state == "ahead" { extra.push(("nowarm", "1".into())); }
     let (rc, err) = run_worker(exe, seed, &d, &extra);
     let mut exit = format!("{rc:?}");
     let first = read_json(&d.join("result.json"));
     let trace = read_trace(&d.join("trace.log"));
+    let pre = read_json(&d.join("pre.json"));
     let mut res = first.clone();
     if mode == "crash" {
         // the cut run must have died (rc None = killed by the abort signal); the twin ends normally
@@ -765,7 +919,7 @@ fn run_case(exe: &Path, seed: u64, out: &Path, state: &str, op: &str, mode: &str
     }
     let keep = std::env::var("KV_KEEP").is_ok();
     if !keep { let _ = std::fs::remove_dir_all(&d); }
-    CaseOut { state: state.into(), op: op.into(), mode: mode.into(), n: n.unwrap_or(usize::MAX), prefix: trace.clone(), trace, res, exit, target: String::new() }
+    CaseOut { state: state.into(), op: op.into(), mode: mode.into(), n: n.unwrap_or(usize::MAX), prefix: trace.clone(), trace, res, exit, target: String::new(), pre }
 }
 
 fn shapes(tr: &[Value], op: &str) -> Vec<(String, String)> {
@@ -811,12 +965,14 @@ fn diff_paths(a: &Value, b: &Value, path: String, out: &mut Vec<String>) {
 // ------------------------------------------------------------------------------------------------
 // Coq terms
 
-fn ent_id(h: &str) -> u64 { match h { "ta" => 0, "a" => 1, "b" => 2, "c" => 3, _ => 98 } }
+fn ent_id(h: &str) -> u64 { match h { "ta" => 0, "a" => 1, "b" => 2, "c" => 3, "n" => 4, "px" => 5, "py" => 6, _ => 98 } }
 
 fn task_term(name: &str) -> String {
     if let Some(ca) = name.strip_prefix("sync_repo_") { return format!("(1, {})", ent_id(ca)) }
     if let Some(rest) = name.strip_prefix("sync_") { if let Some((ca, _)) = rest.split_once("_with_parent_") { return format!("(2, {})", ent_id(ca)) } }
     if name == "update_rrdp_if_needed" { return "(3, 0)".into() }
+    if let Some(rest) = name.strip_prefix("resource_class_removed_ca_") { if let Some((ca, _)) = rest.split_once("_parent_") { return format!("(4, {})", ent_id(ca)) } }
+    if let Some(rest) = name.strip_prefix("unexpected_key_found_ca_") { if let Some((ca, _)) = rest.split_once('_') { return format!("(5, {})", ent_id(ca)) } }
     let id = match name { "all_cas_renew_objects_if_needed" => 1, "all_cas_republish_if_needed" => 2, "renew_testbed_ta" => 3, "update_stored_snapshots" => 4, "queue_start_tasks" => 5, "sync_ta_proxy_signer" => 6, _ => 7 };
     format!("(9, {id})")
 }
@@ -838,9 +994,10 @@ fn shape_term(t: &Value, wildcard_entity: bool) -> String {
     let key = t["key"].as_str().unwrap_or("");
     let scope = t["scope"].as_str().unwrap_or("");
     match ns {
-        "ca_objects" => format!("ShObjects {}", ent(key.trim_end_matches(".json"))),
-        "cas" => if key.starts_with("command-") { format!("ShCommand {}", ent(scope)) } else { format!("ShSnapshot {}", ent(scope)) },
-        "status" => format!("ShStatus {}", ent(scope)),
+        "ca_objects" => if kind == "store" { format!("ShObjects {}", ent(key.trim_end_matches(".json"))) } else { format!("ShOther 5 {}", ent(key.trim_end_matches(".json"))) },
+        "cas" => if kind != "store" { format!("ShOther 4 {}", ent(scope)) } else if key.starts_with("command-") { format!("ShCommand {}", ent(scope)) } else { format!("ShSnapshot {}", ent(scope)) },
+        "status" => if kind == "store" { format!("ShStatus {}", ent(scope)) } else { format!("ShOther 6 {}", ent(scope)) },
+        "pubd" => if kind == "store" && key.starts_with("command-") { "ShPubdCommand".into() } else { "ShOther 3 0".into() },
         "keys" => "ShKey".into(),
         "signers" => "ShSigner".into(),
         "pubd_objects" => if kind == "delete" { "ShWalDelete".into() } else if key.starts_with("wal-") { "ShWal".into() } else { "ShWalSnapshot".into() },
@@ -862,7 +1019,7 @@ fn shape_term(t: &Value, wildcard_entity: bool) -> String {
 /// Steps of the operation: every listener write that is followed by the command store of the same CA starts
 /// a command step whose events come from the audit log; a command store without listener write is a rejected
 /// command; everything else is a single mutation.
-fn steps_terms(trace: &[Value], new_commands: &Value, wildcard_entity: bool) -> Vec<String> {
+fn steps_terms(trace: &[Value], new_commands: &Value, wildcard_entity: bool, n_parents: &BTreeMap<String, usize>) -> Vec<String> {
     let mut steps = Vec::new();
     let mut next: BTreeMap<String, usize> = BTreeMap::new();
     let is = |t: &Value, store: &str| t["store"].as_str() == Some(store);
@@ -877,7 +1034,7 @@ fn steps_terms(trace: &[Value], new_commands: &Value, wildcard_entity: bool) -> 
             if let Some(j) = found {
                 let k = *next.get(&h).unwrap_or(&0); next.insert(h.clone(), k + 1);
                 let cmd = &new_commands[&h][k];
-                let evs: Vec<String> = cmd.as_array().map(|a| a.iter().map(|e| format!("(\"{}\"%string, {})", e[0].as_str().unwrap_or("?"), { let c = e[1].as_str().unwrap_or(""); if c.is_empty() { 0 } else { ent_id(c) } })).collect()).unwrap_or_default();
+                let evs: Vec<String> = cmd.as_array().map(|a| a.iter().map(|e| format!("(\"{}\"%string, {})", e[0].as_str().unwrap_or("?"), { let c = e[1].as_str().unwrap_or(""); if e[0] == "RepoUpdated" { *n_parents.get(&h).unwrap_or(&0) as u64 } else if c.is_empty() { 0 } else { ent_id(c) } })).collect()).unwrap_or_default();
                 let children: Vec<String> = cmd.as_array().map(|a| a.iter().filter_map(|e| e[1].as_str().filter(|c| !c.is_empty()).map(|c| c.to_string())).collect()).unwrap_or_default();
                 steps.push(format!("CCmd {} {}", ent_id(&h), coq_list(&evs)));
                 // skip through the command store and the post-save task writes (parent syncs of the children named by the events)
@@ -893,6 +1050,7 @@ fn steps_terms(trace: &[Value], new_commands: &Value, wildcard_entity: bool) -> 
             let h = t["scope"].as_str().unwrap_or("").to_string();
             let k = *next.get(&h).unwrap_or(&0); next.insert(h.clone(), k + 1);
             if new_commands[&h][k] == "error" { steps.push(format!("CCmdErr {}", ent_id(&h))); i += 1; continue }
+            // (an initialisation command - command-0 - has no listener write: a single mutation)
         }
         steps.push(format!("CPrim ({})", shape_term(t, wildcard_entity)));
         i += 1;
@@ -905,17 +1063,22 @@ fn kind_term(state: &str, op: &str, twin: &CaseOut, pre: &Value) -> String {
     let n_files = twin.res["at_cut"]["rsync_files"].as_u64().unwrap_or(0);
     let hc = pre["has_current"].as_bool().unwrap_or(false);
     let ho = pre["has_old"].as_bool().unwrap_or(false);
+    // a temporary directory of the serial that is written now, left by an interrupted write
+    let ht = pre["tmp_dirs"].as_array().map(|a| a.iter().any(|d| d.as_str() == Some(&format!("tmp-{}", twin.res["at_cut"]["content_serial"].as_u64().unwrap_or(0))))).unwrap_or(false);
     let nd = twin.res["at_cut"]["content_serial"].as_u64().unwrap_or(0).saturating_sub(pre["notification_serial"].as_u64().unwrap_or(0));
     // the clean-up after the notification switch depends on which old files / serial directories exist: taken as observed
     let cleanup: Vec<String> = twin.trace.iter().filter(|t| t["class"].as_str().map(|c| c.ends_with(":rrdp-dir")).unwrap_or(false)).map(|t| (t["kind"] == "fs-remove-dir").to_string()).collect();
-    let rrdp = format!("(KRrdpUpdate {nd}%nat {} {n_files}%nat {hc} {ho})", coq_list(&cleanup));
+    let rrdp = format!("(KRrdpUpdate {nd}%nat {} {n_files}%nat {hc} {ho} {ht})", coq_list(&cleanup));
     match (state, op) {
         (_, "keyroll_init") => "KKeyrollInit".into(),
+        (_, "remove_publisher") => "KRemovePublisher".into(),
+        (_, "create_publisher") => "KCreatePublisher".into(),
+        (_, "delete_ca") | (_, "delete_ca_parent") | (_, "init_ca") | (_, "update_repo") | (_, "parent_remove") | (_, "child_remove") => "KGeneric".into(),
         (_, "sync_parent") => "KSyncParent".into(),
         (_, "republish") => "KRepublish".into(),
         (_, "sync_repo") => "KSyncRepo".into(),
         (_, "rrdp_update") => rrdp,
-        (_, "rsync_write") => format!("(KRsyncWrite {n_files}%nat {hc} {ho})"),
+        (_, "rsync_write") => format!("(KRsyncWrite {n_files}%nat {hc} {ho} {ht})"),
         ("dirty", "task") => "(KTask KSyncRepo)".into(),
         ("ahead", "task") => "(KTask KIdle)".into(),
         ("staged", "task") => format!("(KTask {rrdp})"),
@@ -936,6 +1099,24 @@ fn symptom(c: &CaseOut, twin: &CaseOut, converged: bool, tasks_kept: bool) -> (u
     if c.op == "sync_parent" && has("No issued cert matching pub key") && keys(&c.res, p) == "roll_old" { return (3, "revoke-not-retryable") }
     if !converged && c.op == "sync_parent" && c.state == "rollpending" && keys(&c.res, p) == "active" && keys(&twin.res, p) == "roll_new" { return (5, "keyroll-abandoned-class-dropped") }
     if converged && !tasks_kept && c.mode == "fail" { return (6, "recurring-task-lost") }
+    // divergences of the two-store / composite operations (new candidate classes, numbers from 20)
+    if !converged {
+        let mut d = Vec::new();
+        diff_paths(&comparable(&c.res["obs"]), &comparable(&twin.res["obs"]), String::new(), &mut d);
+        let paths: Vec<String> = d.iter().map(|x| x.split(':').next().unwrap_or("").to_string()).collect();
+        let t = params_target(c);
+        let gone = if c.op == "delete_ca_parent" { "a" } else { t };
+        let all = |pred: &dyn Fn(&str) -> bool| !paths.is_empty() && paths.iter().all(|p| pred(p));
+        if c.op == "create_publisher" && has("Duplicate publisher") && all(&|p| p == "/stores/content_publishers" || p == "/repo/py") { return (20, "publisher-half-created") }
+        if ["delete_ca", "delete_ca_parent"].contains(&c.op.as_str()) {
+            if all(&|p| p == format!("/objects/{gone}") || p == "/stores/ca_objects_keys" || p == "/stores/status_scopes") { return (23, "deleted-ca-leftover-stores") }
+            if c.mode == "fail" && all(&|p| p == format!("/repo/{gone}") || p == "/rsync" || p == "/stores/content_publishers") { return (22, "deleted-ca-objects-left-in-repository") }
+        }
+        // the parent of the CA that goes away (or drops the parent) still publishes its certificate
+        let par = if c.op == "delete_ca_parent" { "ta" } else { "a" };
+        if ["delete_ca", "delete_ca_parent", "parent_remove"].contains(&c.op.as_str()) && c.mode == "fail" && c.res["first_result"] == "ok"
+            && paths.iter().any(|p| p == &format!("/repo/{par}") || p.starts_with(&format!("/cas/{par}/"))) && all(&|p| p.starts_with(&format!("/cas/{par}/")) || p == &format!("/objects/{par}") || p == &format!("/repo/{par}") || p == "/rsync") { return (21, "revocation-at-parent-skipped") }
+    }
     if !converged || !tasks_kept { return (0, "diverged") }
     (0, "none")
 }
@@ -950,6 +1131,8 @@ fn main() {
     let seed = args.seed;
     let strict = args.get_u64("strict", 0) == 1;
     let strict_atomic = args.get_u64("strict-atomic", 0) == 1;
+    // candidate classes found after the known-findings list was fixed (numbers from 20): reported, counted only on request
+    let strict_new = args.get_u64("strict-new", 0) == 1;
     let target = params(seed).target;
     let t0 = std::time::Instant::now();
     let base = out.join("base");
@@ -957,10 +1140,13 @@ fn main() {
     let (rc, err) = run_worker(&exe, seed, &base, &[("worker", "setup".into())]);
     assert!(rc == Some(0), "setup failed: {err}");
     eprintln!("setup {:?}", t0.elapsed());
-    let quick: Vec<(&str, &str)> = vec![("base", "roa_add"), ("base", "entitlement"), ("rollpending", "sync_parent"), ("rollnew", "keyroll_activate"), ("dirty", "task"), ("ahead", "task"), ("staged", "rrdp_update"), ("oldleft", "rsync_write")];
+    let quick: Vec<(&str, &str)> = vec![("base", "roa_add"), ("base", "entitlement"), ("rollpending", "sync_parent"), ("rollnew", "keyroll_activate"), ("dirty", "task"), ("ahead", "task"), ("staged", "rrdp_update"), ("oldleft", "rsync_write"),
+        ("base", "remove_publisher"), ("pxstaged", "remove_publisher"), ("base", "create_publisher"), ("base", "delete_ca")];
     let all: Vec<(&str, &str)> = vec![("base", "roa_add"), ("base", "aspa_add"), ("base", "entitlement"), ("ent", "sync_parent"), ("base", "keyroll_init"), ("rollpending", "sync_parent"),
         ("rollnew", "keyroll_activate"), ("rollold", "sync_parent"), ("dirty", "task"), ("dirty", "sync_repo"), ("dirty", "roa_add2"), ("staged", "rrdp_update"), ("staged", "rsync_write"), ("base", "republish"), ("staged", "task"),
-        ("rollnew", "roa_add"), ("rollold", "roa_add"), ("rollpending", "roa_add"), ("rollnew", "entitlement"), ("ent", "roa_add"), ("ahead", "task"), ("oldleft", "rsync_write")];
+        ("rollnew", "roa_add"), ("rollold", "roa_add"), ("rollpending", "roa_add"), ("rollnew", "entitlement"), ("ent", "roa_add"), ("ahead", "task"), ("oldleft", "rsync_write"), ("tmpleft", "rsync_write"),
+        ("base", "remove_publisher"), ("pxstaged", "remove_publisher"), ("base", "create_publisher"), ("base", "delete_ca"), ("base", "delete_ca_parent"),
+        ("base", "init_ca"), ("newca", "update_repo"), ("base", "parent_remove"), ("base", "child_remove")];
     let plan: Vec<(&str, &str)> = match args.extra.get("plan").map(|s| s.as_str()) {
         Some("all") => all.clone(),
         Some(p) if p.contains('/') => p.split(',').map(|x| { let (a, b) = x.split_once('/').unwrap(); *all.iter().find(|(s, o)| *s == a && *o == b).expect("unknown state/op") }).collect(),
@@ -1017,7 +1203,7 @@ fn main() {
     let verbose = std::env::var("KV_VERBOSE").is_ok();
     for c in &cases {
         let twin = twins.iter().find(|t| t.state == c.state && t.op == c.op && t.mode == c.mode).unwrap();
-        let pre = read_json(&out.join(format!("state-{}", c.state)).join("pre.json"));
+        let pre = c.pre.clone();
         let wild = c.op == "republish";
         let tsh = shapes(&twin.trace, &c.op);
         let cls = cut_class(&tsh, c.n);
@@ -1027,24 +1213,33 @@ fn main() {
         diff_paths(&comparable(&c.res["obs"]), &comparable(&twin.res["obs"]), String::new(), &mut diffs);
         let mut d_prompt = Vec::new();
         diff_paths(&c.res["obs_prompt"], &twin.res["obs_prompt"], String::new(), &mut d_prompt);
-        let settle_errs = c.res["settle_errs"].as_array().map(|a| a.len()).unwrap_or(0);
-        let converged = !fatal && diffs.is_empty() && settle_errs == 0;
+        // errors of the periodic work: the same ones as in the fault-free run (e.g. the sync of a CA whose publisher
+        // the operation removed), compared without the variable parts
+        let canon_errs = |r: &Value| -> Vec<String> { let mut v: Vec<String> = r["settle_errs"].as_array().map(|a| a.iter().map(|x| canon_name(&x.as_str().unwrap_or("").chars().take(90).collect::<String>())).collect()).unwrap_or_default(); v.sort(); v };
+        let converged = !fatal && diffs.is_empty() && canon_errs(&c.res) == canon_errs(&twin.res);
         let t_tasks: BTreeSet<String> = twin.res["obs"]["tasks"].as_array().map(|a| a.iter().map(|x| x.as_str().unwrap_or("").to_string()).collect()).unwrap_or_default();
         let c_tasks: BTreeSet<String> = c.res["obs"]["tasks"].as_array().map(|a| a.iter().map(|x| x.as_str().unwrap_or("").to_string()).collect()).unwrap_or_default();
         let lost: Vec<String> = t_tasks.difference(&c_tasks).cloned().collect();
         let tasks_kept = lost.is_empty();
         let (cand, sym) = symptom(c, twin, converged, tasks_kept);
+        let strict = if cand >= 20 { strict_new } else { strict };
         // facts right after the cut
         let mut new_cmds = Vec::new(); let mut shrank = false; let mut objs_changed = Vec::new();
-        for h in ["ta", "a", "b", "c"] {
+        for h in CA_ALL {
             let (v0, v1) = (pre["versions"][h].as_u64().unwrap_or(0), c.res["at_cut"]["versions"][h].as_u64().unwrap_or(0));
-            if v1 < v0 { shrank = true }
+            if v1 < v0 && v1 != 0 { shrank = true }      // (v1 = 0: the entity was deleted as a whole)
             if v1 > v0 { new_cmds.push(format!("({}, {})", if wild { 99 } else { ent_id(h) }, v1 - v0)); }
             if c.res["at_cut"]["objects"][h] != pre["objects"][h] { objs_changed.push(if wild { 99 } else { ent_id(h) }.to_string()); }
         }
         objs_changed.dedup();
-        let loads = !fatal && !shrank && c.res["loads_bad"].as_array().map(|a| a.is_empty()).unwrap_or(false) && c.res["loads_bad_final"].as_array().map(|a| a.is_empty()).unwrap_or(false);
         let empty = |v: &Value| v.as_array().map(|a| a.is_empty()).unwrap_or(false);
+        let strs = |v: &Value| -> Vec<String> { v.as_array().map(|a| a.iter().map(|x| x.as_str().unwrap_or("").to_string()).collect()).unwrap_or_default() };
+        let live_ok = !fatal && empty(&c.res["live_bad"]);
+        let restart_ok = !fatal && empty(&c.res["restart_bad"]);
+        let all_load_msgs: Vec<String> = [strs(&c.res["loads_bad"]), strs(&c.res["loads_bad_final"])].concat();
+        let gap = all_load_msgs.iter().any(|m| m.starts_with("version-gap") || m.contains("missing below version") || m.contains("exists at the loaded version"));
+        let lost_by_restart = strs(&c.res["restart_bad"]).iter().any(|m| m.starts_with("acknowledged-command-lost"));
+        let loads = !fatal && !shrank && all_load_msgs.is_empty() && live_ok && restart_ok;
         let rp_ok = !fatal && empty(&c.res["obs"]["signed_bad"]) && empty(&c.res["obs"]["files_bad"]) && empty(&c.res["obs_pump"]["signed_bad"]) && empty(&c.res["obs_pump"]["files_bad"]);
         let acked = c.mode == "fail" && c.res["first_result"] == "ok";
         // atomicity right after the cut: a published-object store that moved without its command
@@ -1053,7 +1248,8 @@ fn main() {
         // terms
         let pend0: Vec<String> = pre["tasks"].as_array().map(|a| a.iter().filter_map(|x| x.as_str().and_then(|s| s.strip_prefix("pending:")).map(task_term)).collect()).unwrap_or_default();
         let run0: Vec<String> = pre["tasks"].as_array().map(|a| a.iter().filter_map(|x| x.as_str().and_then(|s| s.strip_prefix("running:")).map(task_term)).collect()).unwrap_or_default();
-        let steps = steps_terms(&twin.trace, &twin.res["new_commands"], wild);
+        let n_parents: BTreeMap<String, usize> = ["a", "b", "c", "n"].iter().map(|h| (h.to_string(), twin.res["obs"]["cas"][*h]["parents"].as_array().map(|a| a.len()).unwrap_or(0))).collect();
+        let steps = steps_terms(&twin.trace, &twin.res["new_commands"], wild, &n_parents);
         let trace_t: Vec<String> = twin.trace.iter().map(|t| shape_term(t, wild)).collect();
         let prefix_t: Vec<String> = c.prefix.iter().take(c.n).map(|t| shape_term(t, wild)).collect();
         let kind = kind_term(&c.state, &c.op, twin, &pre);
@@ -1065,10 +1261,12 @@ fn main() {
         // class of the record (what a known finding is matched against)
         let only_atomic = loads && rp_ok && converged && tasks_kept && atomic_broken;
         // acknowledged (failed-write mode, the call returned Ok): every command store of the trace must be in the logs
-        let ack_lost = acked && ["a", "b", "c"].iter().any(|h| {
+        let single_command = ["roa_add", "roa_add2", "aspa_add", "entitlement", "keyroll_activate", "keyroll_init"].contains(&c.op.as_str());
+        let ack_lost = acked && single_command && ["a", "b", "c"].iter().any(|h| {
             let want = twin.trace.iter().filter(|t| t["store"] == "cas" && t["scope"].as_str() == Some(*h) && t["key"].as_str().unwrap_or("").starts_with("command-")).count() as u64;
             c.res["at_cut"]["versions"][*h].as_u64().unwrap_or(0) < pre["versions"][*h].as_u64().unwrap_or(0) + want });
-        let sym_name = if !loads { "does-not-load" } else if ack_lost { "acknowledged-command-lost" } else if !rp_ok { "published-set-invalid" }
+        let sym_name = if !live_ok { "live-state-ahead-of-log" } else if gap { "version-gap" } else if ack_lost || lost_by_restart { "acknowledged-command-lost" }
+            else if !restart_ok { "restart-changes-state" } else if !loads { "does-not-load" } else if !rp_ok { "published-set-invalid" }
             else if sym != "none" { sym } else if only_atomic { "objects-ahead-of-log" } else { "none" };
         // with strict = 0 a candidate divergence is excused, so the only clause such a record can fail is atomicity
         let class_sym = if !strict && cand != 0 && atomic_broken { "objects-ahead-of-log" } else { sym_name };
@@ -1077,7 +1275,7 @@ fn main() {
         let rec = json!({"index": w.total, "state": c.state, "op": c.op, "target": c.target, "mode": c.mode, "cut": c.n, "of": twin.trace.len(), "class": class,
             "trace": twin.trace.iter().map(|t| format!("{} {}", t["store"].as_str().unwrap_or(""), t["class"].as_str().unwrap_or(""))).collect::<Vec<_>>(),
             "interrupted_mutation": twin.trace.get(c.n).map(|t| format!("{} {}", t["store"].as_str().unwrap_or(""), t["class"].as_str().unwrap_or(""))),
-            "first_result": c.res["first_result"], "resubmit": c.res["resubmit"], "settle_errs": c.res["settle_errs"], "loads_bad": c.res["loads_bad"], "fatal": c.res["fatal"],
+            "first_result": c.res["first_result"], "resubmit": c.res["resubmit"], "settle_errs": c.res["settle_errs"], "loads_bad": all_load_msgs, "live_vs_log": c.res["live_bad"], "restart": c.res["restart_bad"], "fatal": c.res["fatal"],
             "new_commands_at_cut": new_cmds, "objects_changed_at_cut": objs_changed, "atomic_alike_broken": atomic_broken,
             "roas_published_without_logged_command_after_restart_and_tasks": c.res["obs_pump"]["orphan_roas"], "orphan_roas_at_the_end": c.res["obs"]["orphan_roas"],
             "converged": converged, "converged_promptly": d_prompt.is_empty(), "lost_tasks": lost, "diff_vs_twin": diffs.iter().take(6).collect::<Vec<_>>(), "exit": c.exit});
@@ -1101,13 +1299,14 @@ fn main() {
     }
     w.flush();
     let excusable = ["keyroll-activate-wedged", "revoke-not-retryable", "keyroll-abandoned-class-dropped", "recurring-task-lost"];
+    let excusable_new = ["publisher-half-created", "revocation-at-parent-skipped", "deleted-ca-objects-left-in-repository", "deleted-ca-leftover-stores"];
     for (k, v) in &sym_hist {
         if k == "none" { continue }
-        let counted = if k == "objects-ahead-of-log" { strict_atomic } else if excusable.contains(&k.as_str()) { strict } else { true };
+        let counted = if k == "objects-ahead-of-log" { strict_atomic } else if excusable.contains(&k.as_str()) { strict } else if excusable_new.contains(&k.as_str()) { strict_new } else { true };
         println!("{} {k}: {v} case(s){}", if counted { "FAILING-CLASS" } else { "CANDIDATE-FINDING-CLASS" }, if counted { "" } else { " (reported in the evidence, not counted: strict flag is 0)" });
     }
     write_json(&args.out.join("stats.json"), &json!({
-        "scenario": "c08", "seed": seed, "tier": args.tier, "target_ca": target, "strict": strict, "strict_atomic": strict_atomic,
+        "scenario": "c08", "seed": seed, "tier": args.tier, "target_ca": target, "strict": strict, "strict_atomic": strict_atomic, "strict_new": strict_new,
         "evaluations": w.total, "distinct_nontrivial": distinct.len(),
         "rule": "TA->a->{b,c} on disk storage, set up once, copied per case; seed picks the target CA (b|c), prefixes, ASNs; states: base, dirty (ROA added, tasks pending), staged (delta staged at the publication server), ent (entitlement shrunk, not synced), rollpending/rollnew/rollold (key roll stages); for each (state, operation kind) the crash-free twin gives the mutation trace; then EVERY cut index n of it is run in a worker subprocess in crash mode (process aborted right before mutation n, fresh runtime on the surviving directory, start-up tasks) and in failed-write mode (mutation n fails once, same runtime; a fatal scheduler error is followed by a restart): loads, pump, resubmit, pump, periodic work (parent syncs, re-publication, repository syncs, RRDP/rsync write), observation; non-trivial = every case (each is a distinct (state, op, mode, cut)); canonicalisation: key identifiers -> KEY, own class names -> RC, serials/times/manifest numbers/revocation counts not compared",
         "operation_distribution": op_hist, "cut_class_distribution": cut_hist, "symptom_distribution": sym_hist, "delayed_until_periodic_work_distribution": delayed_hist,
